@@ -74,6 +74,8 @@ pub fn programs() -> Vec<(&'static str, Module, bool)> {
         ),
         // strings without a payload, and one-byte ones
         ("empty-strings", module(vec![("main", func(&[], vec![sg("t", C::CreateTable), C::Repeat { n: b(int(60)), i: Some("i".into()), body: b(comp(vec![sg("e", s("")), sg("o", s("x")), C::SetProperty(b(s("")), b(rv("t")), b(rv("i")))])) }, sg("len", C::Len(b(rv("t"))))]))]), true),
+        // one object as key and as value of one entry, garbage after the run (two guards on one object)
+        ("same-object-key-and-value", module(vec![("main", func(&[], vec![sv("str", s(&lit.repeat(4))), sv("t", C::CreateTable), C::SetProperty(b(rv("str")), b(rv("t")), b(rv("str"))), sv("u", C::CreateTable), C::SetProperty(b(rv("u")), b(rv("t")), b(rv("u"))), sg("len", C::Len(b(rv("t"))))]))]), true),
         ("reads-global", module(vec![("main", func(&[], vec![sg("g", int(7)), sg("h", add(rv("g"), int(1)))]))]), true),
     ]
 }
